@@ -114,3 +114,13 @@ def dump(db, tables=None):
     finally:
         con.close()
     return out
+
+
+def run_subprocess(argv):
+    """The command as a user runs it: a fresh interpreter per command (bin/spowtd)."""
+    import subprocess
+    import sys
+    env = dict(os.environ, PYTHONPATH=common.REPO, MPLBACKEND="Agg")
+    p = subprocess.run([sys.executable, os.path.join(common.REPO, "bin", "spowtd")] + [str(a) for a in argv],
+                       capture_output=True, text=True, env=env, timeout=600)
+    return ("ok",) if p.returncode == 0 else ("error", "exit %d" % p.returncode, p.stderr[-300:])
